@@ -1102,15 +1102,26 @@ class DiskRefsContainer(RefsContainer):
             filename = self.refpath(ref)
             try:
                 lock = GitFile(filename, "wb")
-            except (OSError, FileLocked):
-                # No such directory (no loose ref), or the ref is being
-                # updated by someone else right now: leave it alone
+            except (FileNotFoundError, NotADirectoryError):
+                # No such directory: there is no loose ref to remove
                 continue
+            except (OSError, FileLocked):
+                if prune_only_unchanged:
+                    # The ref is being updated by someone else right now;
+                    # its loose file holds the same or a newer value
+                    continue
+                raise
             try:
                 if prune_only_unchanged and self.read_loose_ref(ref) != target:
                     continue
-                with suppress(OSError):
+                try:
                     os.remove(filename)
+                except FileNotFoundError:
+                    pass
+                except OSError:
+                    # A loose ref left behind shadows the packed value
+                    if not prune_only_unchanged:
+                        raise
             finally:
                 lock.abort()
 
